@@ -13,7 +13,8 @@ LEVEL = "exploration"
 BUDGET = {"quick": (640, 150), "thorough": (16000, 1500)}
 RULE = ("history machine on one Potential (Atoms or FrozenPhonons source; infinite or finite projection; lobato/kirkland): 2-8 "
         "operations from {build eager, build lazy under SimScheduler (blocks share the integrator; reorder / interleave / recompute), "
-        "gpts=, sampling=, multislice use, partial slice generation (abandoned generator), copy}. After every build / use the result "
+        "gpts=, sampling=, multislice use, partial slice generation (abandoned generator), copy, a lazy build whose graph is computed only "
+        "at the end of the history (it must describe the grid at build time)}. After every build / use the result "
         "must equal that of a freshly constructed potential with the current grid; an exception where the fresh one succeeds is a "
         "violation. distinct = (program hash, schedule hash); non-trivial = >= 1 grid change between two builds")
 ASSUMPTIONS = ["the fresh potential is constructed with the reused object's current gpts (sampling then follows from the locked extent)",
@@ -52,8 +53,8 @@ def draw_program(ch):
     ops = []
     n = ch.range(2, 8, "n-ops")
     for i in range(n):
-        kind = ch.pick(["build", "build-lazy", "gpts", "sampling", "multislice", "partial", "copy"], "op",
-                       weights=[4, 3, 4, 2, 2, 1, 1])
+        kind = ch.pick(["build", "build-lazy", "gpts", "sampling", "multislice", "partial", "copy", "build-lazy-deferred"], "op",
+                       weights=[4, 3, 4, 2, 2, 1, 1, 1.5])
         op = {"op": kind}
         if kind == "gpts":
             op["value"] = ch.pick(GPTS, "gpts")
@@ -91,6 +92,7 @@ def run_one(run):
     subject = make(prog["potential"], prog["potential"]["gpts"])
     grids_seen = [tuple(subject.gpts)]
     builds = 0
+    deferred = []
     changed_between = False
     proj = prog["potential"]["projection"]
 
@@ -114,6 +116,10 @@ def run_one(run):
                 continue
             if kind == "copy":
                 subject = subject.copy()
+                continue
+            if kind == "build-lazy-deferred":
+                # the graph is built now and computed only at the end of the history, after later grid changes / builds
+                deferred.append((subject.build(lazy=True), list(subject.gpts), i))
                 continue
             if kind == "partial":
                 gen = subject.generate_slices()
@@ -172,6 +178,27 @@ def run_one(run):
             run.violate("reuse-equals-fresh", sig("grid", op), f"op {i}: grid of result {sub.gpts}/{sub.sampling} != fresh {ref.gpts}/{ref.sampling}")
             return
         run.digest(ra)
+    for lz, gp, i in deferred:
+        try:
+            ref = make(prog["potential"], gp).build(lazy=False)
+            sim = run.add_sim(Sim(ch, draw_sim_config(ch, light=True)))
+            with sim:
+                sub = sim.compute(lz)
+        except (HarnessError, InjectedCrash):
+            raise
+        except Exception as e:  # noqa: BLE001
+            run.violate("reuse-equals-fresh", sig("raise", {"op": "build-lazy-deferred"}, {"exc": type(e).__name__}),
+                        f"computing the lazy build of op {i} (grid {gp}) at the end of history {grids_seen} raised {type(e).__name__}: {e} at {tb(e)}")
+            return
+        builds += 1
+        ra, sa = oracle.to_numpy(ref.array), oracle.to_numpy(sub.array)
+        ok, d, s_ = oracle.close(sa, ra, rtol, atol) if ra.shape == sa.shape else (False, float("inf"), 0.0)
+        if not ok:
+            run.violate("reuse-equals-fresh", sig("values", {"op": "build-lazy-deferred"}),
+                        f"lazy build made at op {i} on grid {gp} and computed after the history {grids_seen} differs from a fresh potential on that grid: "
+                        f"shapes {sa.shape}/{ra.shape} max|diff|={d:.3g} scale={s_:.3g}")
+            return
+        run.note("deferred_builds")
     run.nontrivial = builds >= 2 and len(set(grids_seen)) > 1
     run.note("builds", builds)
     run.note("grid_changes", len(grids_seen) - 1)
